@@ -16,6 +16,8 @@ def run(tier, seed):
         ctx.replay(g, ContainerAdapter(POS[pe], WTS[we], spelling=sp), VIEW, label=f"{pe}/{we}/sp{sp}")
     nd_part(ctx, tier)
     conv_part(ctx, tier)
+    from props import containers_dtype
+    containers_dtype.run_part(ctx, tier)      # narrower element types and data-derived bins: still the histogram of the same values
     ctx.assumptions = ["the histogram of every container is compared with the SPECIFICATION's state (which does not depend on the container), "
                        "hence also with the ndarray run", "dask facade takes no weights: weighted chunked input is summed chunk by chunk"]
     return ctx.finish("each (layout, data batch incl. NaN entries and empty data, weighted or not) x 11 containers (list, tuple, iterator, ndarray, "
